@@ -17,10 +17,24 @@ def jobs(tier):
     return js
 
 
+def switch_jobs(tier):
+    js = []
+    for versions, switches in (((2, 3), (3, 3)) if tier == "quick" else ((2, 4), (3, 4), (4, 4))):
+        js.append({"id": f"O2.switch.versions{versions}.switches{switches}", "func": "VerifH_C19_Switch",
+                   "conf": {"versions": versions, "switches": switches, "dag": "", "orders": "all", "shortid": 0},
+                   "_obligation": "O2", "_covers": ["switched"], "unwind": 60})
+    return js
+
+
+SWITCH_REDIR = dict(_c02.REDIR)
+SWITCH_REDIR["(*github.com/sourcenetwork/defradb/internal/db.DB).loadSchema"] = "wLoadSchemaNoop"
+
 PROPERTY = {
     "id": "C19",
-    "suites": [dict(_c02.SUITE, name="unknownfield", jobs=jobs)],
-    "bounds": _c02.PROPERTY["bounds"],
+    "suites": [dict(_c02.SUITE, name="unknownfield", jobs=jobs),
+               dict(_c02.SUITE, name="switch", jobs=switch_jobs, redirects=SWITCH_REDIR,
+                    files=["zz_verif_env.go", "zz_verif_merge.go", "zz_verif_c19switch.go"])],
+    "bounds": dict(_c02.PROPERTY["bounds"], **{"active-version switching (O2)": "linear chains of 2-3 (thorough 4) versions, every sequence of 3 (thorough 4) switches"}),
     "assumptions": _c02.PROPERTY["assumptions"] + ["the receiver's collection definition lacks the field carried by every commit"],
-    "outside_claim": ["schema patching, active-version switching, lens migrations, descriptions and their persistence"],
+    "outside_claim": ["schema patching itself (patchSchema / updateSchema: JSON patch, validation), lens migrations, query results across versions (GraphQL, planner); version chains with branches"],
 }
